@@ -790,7 +790,9 @@ with PolarsImpl.impl_store.impl_manager as impl:
 
     @impl(ops.clip)
     def _clip(x, lower, upper):
-        return x.clip(lower, upper)
+        # `x.clip` casts the bounds to the type of `x` (wrong for an integer column
+        # with float bounds) and does not support strings.
+        return pl.when(x.is_not_null()).then(pl.max_horizontal(pl.min_horizontal(x, upper), lower))
 
     @impl(ops.rand)
     def _rand():
